@@ -1098,6 +1098,7 @@ type c20ResetCfg struct {
 	warm       []c20Key   // if non-nil: an undisturbed reset first (makes slot 1 the active one)
 	nw         []c20Key   // keys supplied to the reset under test
 	conc       [][]c20Key // concurrent puts, consumed in order
+	late       [][]c20Key // concurrent puts reserved for the gates after keysChan is closed (phases B, C, opCleanup)
 	fault      string     // "", "commit:n", "sync:n", "query:n", "has:n", "marker-put", "marker-sync"
 	pPut       int        // chance (percent) of a Put at each opportunity
 	pTick      int
@@ -1317,6 +1318,8 @@ func c20RunReset(t *testing.T, r *vfRand, pool []c20Key, ids map[string]int, cfg
 			}
 			opp := 0
 			conc := cfg.conc
+			late := cfg.late
+			chanClosed := false
 			var pending []*c20PutRec
 			closed := false
 			var closeDone chan struct{}
@@ -1348,6 +1351,17 @@ func c20RunReset(t *testing.T, r *vfRand, pool []c20Key, ids map[string]int, cfg
 					gmu.Unlock()
 					if !at {
 						return
+					}
+				}
+				for gated && chanClosed && cfg.putOnly == "" && len(late) > 0 && r.Chance(45) && !closed {
+					p := put(late[0])
+					late = late[1:]
+					select {
+					case <-p.done:
+						out.branches["put-after-phase-A"] = true
+					default:
+						pending = append(pending, p)
+						out.branches["put-while-worker-busy"] = true
 					}
 				}
 				for len(conc) > 0 && (cfg.putOnly != "" || r.Chance(cfg.pPut)) && !closed {
@@ -1439,6 +1453,7 @@ func c20RunReset(t *testing.T, r *vfRand, pool []c20Key, ids map[string]int, cfg
 					tr.flushDue = true
 				}
 				store.mu.Unlock()
+				chanClosed = true
 				close(ch)
 				settle()
 			}
@@ -1683,6 +1698,18 @@ func c20ResetCase(t *testing.T, cs *vfCases, r *vfRand, i int, seed uint64) {
 		}
 		pm = pm[m:]
 		cfg.conc = append(cfg.conc, ks)
+	}
+	for j, n := 0, r.Intn(4); j < n && len(pm) > 0; j++ {
+		m := 1 + r.Intn(2)
+		if m > len(pm) {
+			m = len(pm)
+		}
+		ks := make([]c20Key, m)
+		for x := range ks {
+			ks[x] = pool[pm[x]]
+		}
+		pm = pm[m:]
+		cfg.late = append(cfg.late, ks)
 	}
 	switch x := r.Intn(100); {
 	case x < 6 && len(cfg.conc) >= 2:
